@@ -11,7 +11,7 @@ import explore
 from props import session_common as sc
 from props.c04 import ref_deframe
 
-COQ_TARGETS = ['props/C10.vo']
+COQ_TARGETS = ['props/C10.vo', 'model/YSessionSx.vo']
 TRUSTED = sc.TRUSTED
 ASSUMPTIONS = sc.ASSUMPTIONS + ['CPU budget of 5 s per delivered chunk is measured on the implementation']
 MARK = b'\xff' * 16
